@@ -11,7 +11,7 @@ def group(base: torch.Tensor, axis: int, group_size: int):
     axis_dim = base.shape[axis]
     # This scale is evaluated over axis_numel items for each feature along axis
     axis_numel = base.numel() // axis_dim
-    if group_size > axis_numel or axis_numel % group_size != 0:
+    if group_size <= 0 or group_size > axis_numel or axis_numel % group_size != 0:
         raise ValueError(f"Group size ({group_size}) must be a divisor of ({axis_numel})")
     # Group-wise quantization further splits axis_numel into multiple groups per axis
     axis_groups = axis_numel // group_size
